@@ -4,6 +4,16 @@ Require Import Coq.Lists.List.
 Require Import Coq.NArith.NArith.
 Require Import Urcu.Lfht.FlagProto.
 Require Import Urcu.LfhtSeq.SeqTable.
+Require Import Urcu.Base.MachD.
+Require Import Urcu.Lfht.Lfht.
+Require Import Urcu.Lfht.LfhtSorted.
+Require Import Urcu.Lfht.LfhtReach.
+Require Import Urcu.Lfht.LfhtStep.
+Require Import Urcu.Lfht.LfhtKinds.
+Require Import Urcu.Lfht.LfhtRch.
+Require Import Urcu.Lfht.LfhtFind.
+Require Import Urcu.Lfht.LfhtOwner.
+Require Import Urcu.Lfht.LfhtExample.
 Import ListNotations.
 
 (* for every accepted sequence of atomic accesses to one node's next word - any number of concurrent del, replace, add_replace, add and garbage-collection steps in any order - at most one access obtains the node; REMOVAL_OWNER is never set without REMOVED *)
@@ -51,4 +61,47 @@ Theorem C06_no_second_duplicate :
     forall (l : table_t) (cur : snode), uids l -> nodupkey l -> In cur l -> next_dup l cur = None.
 Proof. exact (@Urcu.LfhtSeq.SeqTable.unique_keys_no_second_duplicate). Qed.
 Print Assumptions C06_no_second_duplicate.
+
+(* pc-level model of cds_lfht_replace (tied lock-step to src/rculfhash.c), every schedule: the very step that flags the old node removed links the new node - same hash, same key - behind it, live and reachable from its bucket; all invariants (sortedness, life cycle, own-bucket reachability) are preserved, so there is no state in which the replaced key is absent *)
+Theorem C06_replace_atomic :
+    forall (C : cfg) (isB : N -> bool) (sz0 : N),
+    (forall i : N, isB (bucket C i) = true) ->
+    (forall node : N, (rh C (bucket C (N.land (hashof C node) (sz0 - 1))) <= rh C node)%N) ->
+    (forall a b : N, rh C a = rh C b -> hashof C a = hashof C b) ->
+    forall (s : state hloc (hprog C)) (t : nat) (old new onext sz : N),
+    Inv3 C isB sz0 s ->
+    PCr C s t = R_Cas old new onext sz ->
+    nxw C s old = onext ->
+    let s' := fst (exec hloc hloc_eqb (hprog C) (Step t) s) in
+    Inv3 C isB sz0 s' /\
+    rmd C s old = false /\
+    rmd C s' old = true /\
+    ptr (nxw C s' old) = new /\
+    insd C s' new /\
+    rmd C s' new = false /\ key C new = key C old /\ rh C new = rh C old /\ reach C s' (bkt C sz0 new) new.
+Proof. exact (@Urcu.Lfht.LfhtFind.replace_cas_effect). Qed.
+Print Assumptions C06_replace_atomic.
+
+(* in every run, per node, at most one event is a del ownership exchange that finds REMOVAL_OWNER clear or a successful replacing cmpxchg: a node is handed to one del or one replace, never both *)
+Theorem C06_replace_single_owner :
+    forall (C : cfg) (isB : N -> bool),
+    (forall i : N, isB (bucket C i) = true) ->
+    forall (n : N) (cs : list choice) (s : state hloc (hprog C)),
+    Inv2 C isB s ->
+    OR C s ->
+    (insd C s n ->
+    is_owner (nxw C s n) = true -> count_succ n (snd (run hloc hloc_eqb (hprog C) cs s)) = 0) /\
+    count_succ n (snd (run hloc hloc_eqb (hprog C) cs s)) <= 1.
+Proof. exact (@Urcu.Lfht.LfhtOwner.lfht_single_owner). Qed.
+Print Assumptions C06_replace_single_owner.
+
+(* non-vacuity: a reachable state of the example configuration stands at the replacing cmpxchg and the conclusion holds there *)
+Theorem C06_replace_instance :
+    let s1 := fst (run hloc hloc_eqb (hprog C0) (repeat (Step 1) 13) s0) in
+    let s' := fst (exec hloc hloc_eqb (hprog C0) (Step 1) s1) in
+    rmd C0 s1 5 = false /\
+    rmd C0 s' 5 = true /\
+    ptr (nxw C0 s' 5) = 6%N /\ insd C0 s' 6 /\ rmd C0 s' 6 = false /\ reach C0 s' (bkt C0 2 6) 6.
+Proof. exact (@Urcu.Lfht.LfhtExample.replace_instance). Qed.
+Print Assumptions C06_replace_instance.
 
